@@ -224,6 +224,10 @@ func (r *VerifRawConn) SessionID() []byte           { return r.t.getSessionID() 
 func (r *VerifRawConn) Close() error                { return r.t.Close() }
 func (r *VerifRawConn) RequestKeyChange()           { r.t.requestKeyExchange() }
 
+// PendingPackets returns how many packets are queued behind a running key
+// exchange (a coverage probe, meaningful only at quiescence: no lock taken).
+func (r *VerifRawConn) PendingPackets() int { return len(r.t.pendingPackets) }
+
 // Algorithms returns the negotiated algorithms.
 func (r *VerifRawConn) Algorithms() NegotiatedAlgorithms { return r.t.getAlgorithms() }
 
